@@ -18,7 +18,10 @@ package main
 // renders back to exactly the same text.
 
 import (
+	"archive/zip"
+	"bytes"
 	"fmt"
+	"io"
 	"regexp"
 	"strconv"
 	"strings"
@@ -186,6 +189,7 @@ type c07DV struct {
 	count  int // validations on the sheet before the edit
 	trees  [2]*c07Node
 	before [2]string
+	raw    [2]string // the XML content as stored (possibly escaped)
 	sqref  [4]int
 }
 
@@ -378,6 +382,7 @@ func c07SpecialPlace(r *Run, f *xl.File, rng *Rng, sheets []string, edited strin
 		d1.trees[0] = dref(1)
 		dv1 := xl.NewDataValidation(true)
 		dv1.SetSqrefDropList(d1.trees[0].String())
+		d1.raw = [2]string{d1.trees[0].String(), ""}
 		add(d1, dv1)
 		// formula1 / formula2 with an explicit, another or an absent operator
 		d2 := &c07DV{sheet: s, sqref: [4]int{21, 40, 22, 41}}
@@ -388,6 +393,7 @@ func c07SpecialPlace(r *Run, f *xl.File, rng *Rng, sheets []string, edited strin
 			f1 = strings.NewReplacer("&", "&amp;", "<", "&lt;", ">", "&gt;").Replace(f1)
 		}
 		op2 := ops[(idx*2+hi)%len(ops)]
+		d2.raw = [2]string{f1, d2.trees[1].String()}
 		add(d2, &xl.DataValidation{AllowBlank: true, Type: "whole", Operator: op2, Formula1: f1, Formula2: d2.trees[1].String()})
 		r.Stat("special:dv-operator:" + map[bool]string{true: "edited", false: "other"}[s == edited] + ":" + map[bool]string{true: "absent", false: op2}[op2 == ""])
 		// the twin formula texts of this workbook (identical text on several sheets)
@@ -395,6 +401,7 @@ func c07SpecialPlace(r *Run, f *xl.File, rng *Rng, sheets []string, edited strin
 			d3 := &c07DV{sheet: s, sqref: [4]int{24, 40, 24, 41}}
 			d3.trees[0], d3.trees[1] = twins[0], twins[1]
 			op3 := ops[(idx*2+hi+4)%len(ops)]
+			d3.raw = [2]string{twins[0].String(), twins[1].String()}
 			add(d3, &xl.DataValidation{AllowBlank: true, Type: "decimal", Operator: op3, Formula1: twins[0].String(), Formula2: twins[1].String()})
 			r.Stat("special:dv-operator:" + map[bool]string{true: "edited", false: "other"}[s == edited] + ":" + map[bool]string{true: "absent", false: op3}[op3 == ""])
 		}
@@ -565,6 +572,73 @@ func c07SpecialCheck(r *Run, f *xl.File, sp *c07Special, edited string, e c07Edi
 			}
 		}
 	}
+	// ---- the stored (XML-escaped) text of the data-validation formulas: read from the saved package
+	// and compared with Impl.adjustDV (unescape -> adjustFormulaRef -> escape); transcript op dvw
+	if len(sp.dvs) > 0 {
+		raws := c07RawDVFormulas(f)
+		for _, d := range sp.dvs {
+			after, ok := raws[d.sheet]
+			if !ok || len(after) != d.count {
+				r.Stat("special:dv-raw-unavailable")
+				continue
+			}
+			for k := 0; k < 2; k++ {
+				if d.raw[k] == "" {
+					continue
+				}
+				unesc := strings.NewReplacer("&amp;", "&", "&lt;", "<", "&gt;", ">").Replace(d.raw[k])
+				r.Op(fmt.Sprintf("dvw %s %d %d %s %s %s %s%s", e.dir(), e.num, e.off, hx(edited), hx(d.sheet), hx(d.raw[k]),
+					c07NamesField(names), c07TokWire(c07Tokens(unesc))), "ok "+hx(after[d.idx][k]))
+				r.Stat("special:dv-raw-checked")
+			}
+		}
+	}
+}
+
+var (
+	c07ReDV = regexp.MustCompile(`(?s)<dataValidation\b[^>]*?(/>|>(.*?)</dataValidation>)`)
+	c07ReF1 = regexp.MustCompile(`(?s)<formula1>(.*?)</formula1>`)
+	c07ReF2 = regexp.MustCompile(`(?s)<formula2>(.*?)</formula2>`)
+)
+
+// c07RawDVFormulas saves the workbook to memory and extracts, per sheet, the raw content of
+// <formula1>/<formula2> of every <dataValidation> in document order.
+func c07RawDVFormulas(f *xl.File) map[string][][2]string {
+	out := map[string][][2]string{}
+	buf, err := f.WriteToBuffer()
+	if err != nil {
+		return out
+	}
+	zr, err := zip.NewReader(bytes.NewReader(buf.Bytes()), int64(buf.Len()))
+	if err != nil {
+		return out
+	}
+	for id, name := range f.GetSheetMap() {
+		for _, zf := range zr.File {
+			if zf.Name != fmt.Sprintf("xl/worksheets/sheet%d.xml", id) {
+				continue
+			}
+			rc, err := zf.Open()
+			if err != nil {
+				continue
+			}
+			data, _ := io.ReadAll(rc)
+			rc.Close()
+			var list [][2]string
+			for _, m := range c07ReDV.FindAllStringSubmatch(string(data), -1) {
+				var p [2]string
+				if g := c07ReF1.FindStringSubmatch(m[2]); g != nil {
+					p[0] = g[1]
+				}
+				if g := c07ReF2.FindStringSubmatch(m[2]); g != nil {
+					p[1] = g[1]
+				}
+				list = append(list, p)
+			}
+			out[name] = list
+		}
+	}
+	return out
 }
 
 // c07SharedWitness reproduces, on every run, the open finding about shared formulas: children are
